@@ -501,6 +501,12 @@ func (env *specEnv) index(x *ast.IndexExpr) Val {
 		sv := env.eval(x.X).(*SliceV)
 		return u.readCell(env.st, "bv8", c.Idx(sv.Base, c.AddRaw(sv.Off, i)))
 	case *types.Array:
+		if av, ok := env.tryEval(x.X).(*ArrayV); ok {
+			if av.Zero {
+				return u.zeroVal(t.Elem())
+			}
+			return u.load(av.St, c.Idx(av.Base, i), t.Elem())
+		}
 		a, _ := env.addr(x.X)
 		return u.load(env.st, c.Idx(a, i), t.Elem())
 	case *types.Pointer:
@@ -1029,4 +1035,26 @@ func (env *specEnv) resolveTypeName(name string) int {
 		t = types.NewPointer(t)
 	}
 	return env.u.E.typeID(t)
+}
+
+// tryEval evaluates e if it denotes a value (not only an lvalue); nil otherwise.
+func (env *specEnv) tryEval(e ast.Expr) (v Val) {
+	defer func() {
+		if r := recover(); r != nil {
+			if _, isStr := r.(string); isStr {
+				v = nil
+				return
+			}
+			panic(r)
+		}
+	}()
+	switch x := e.(type) {
+	case *ast.Ident:
+		return env.ident(x)
+	case *ast.ParenExpr:
+		return env.tryEval(x.X)
+	case *ast.CallExpr:
+		return env.eval(x)
+	}
+	return nil
 }
